@@ -420,7 +420,9 @@ class Exec:
         if key in self.obligations:
             return
         self.saturate()
-        ob = Obligation("%s/%s/p%d.%d" % (self.fid, name, self.paths, key[1]), g, list(self.facts.pc), None,
+        import hashlib as _h
+        ptag = _h.sha1(repr(key[0]).encode()).hexdigest()[:6]
+        ob = Obligation("%s/%s/p%s.%d" % (self.fid, name, ptag, key[1]), g, list(self.facts.pc), None,
                         {k: list(v) for k, v in self.facts.ground.items()}, kind, level or self.level, info)
         self.obligations[key] = ob
         self.ob_order.append(key)
